@@ -57,12 +57,17 @@ func deliveredKey(kind string, data [][]byte) string {
 	return string(data[0])
 }
 
-func scC09(r *Run) { runC09(r, allVariants, false) }
+func scC09(r *Run) { runC09(r, allVariants, "") }
 
 // scC11LL: the Low-Latency clauses of C11 against the real Low-Latency muxer as origin.
-func scC11LL(r *Run) { runC09(r, []string{"ll"}, true) }
+func scC11LL(r *Run) { runC09(r, []string{"ll"}, "c11ll") }
 
-func runC09(r *Run, variants []string, llLog bool) {
+// scC13Muxer: byte-level damage to the responses of a real muxer (C13, in particular Low-Latency playlists
+// that lose their preload hint, parts, or server-control line on a later poll).
+func scC13Muxer(r *Run) { runC09(r, []string{"ll", "ll", "fmp4", "mpegts"}, "c13") }
+
+func runC09(r *Run, variants []string, mode string) {
+	llLog := mode == "c11ll"
 	T := r.T
 	g := &muxGen{variants: variants, minCalls: 150, maxCalls: 900, paramChanges: false, noMidGOP: T.Chance(1, 2), negativeStart: false,
 		keyEvery: Pick(T, 0, 5, 10, 15, 30), constLeading: T.Chance(2, 3)}
@@ -96,8 +101,20 @@ func runC09(r *Run, variants []string, llLog bool) {
 	tr := newSimTransport(r)
 	org := &muxOrigin{r: r, w: w, tr: tr}
 	lat := Pick(T, 0, 10, 100, 500, 2000)
+	spots := map[int]bool{}
+	if mode == "c13" {
+		for k := T.Range(1, 3); k > 0; k-- {
+			spots[T.Range(0, 40)] = true
+		}
+	}
 	fate := func(nr *netReq) *netFate {
-		return &netFate{latency: time.Duration(T.Range(0, lat)) * time.Millisecond / 2, back: time.Duration(T.Range(0, lat)) * time.Millisecond / 2}
+		f := &netFate{latency: time.Duration(T.Range(0, lat)) * time.Millisecond / 2, back: time.Duration(T.Range(0, lat)) * time.Millisecond / 2}
+		if spots[nr.id] {
+			f.fault = "mutate"
+			f.mutation = func(path string, body []byte) []byte { return damage(T, path, body) }
+			r.FaultConf("mutate")
+		}
+		return f
 	}
 	primary := "http://mux.example/stream/index.m3u8"
 	useMediaPrimary := T.Chance(1, 4) && (cfg.vname == "mpegts" || len(cfg.tracks) == 1)
@@ -195,7 +212,41 @@ func runC09(r *Run, variants []string, llLog bool) {
 		cw.net.waitUntil(target)
 	}
 	r.Tracef("end: started=%v wait=%v err=%s requests=%d tracks=%d", started, cw.waitSeen, describeErr(cw.waitErr), len(cw.net.log), len(cw.tracks))
-	if llLog {
+	if mode == "c13" {
+		// no panic (the process is still here), no wedge, Close honoured
+		if !cw.waitSeen && started {
+			pacing, pendingNet := false, false
+			for _, g := range clientGoroutines() {
+				if strings.Contains(g, "handleData") {
+					pacing = true
+				}
+			}
+			for _, nr := range cw.net.log {
+				if !nr.delivered && !nr.cancelled {
+					pendingNet = true
+				}
+			}
+			if !pacing && !pendingNet {
+				first := ""
+				if gs := clientGoroutines(); len(gs) > 0 {
+					first = gs[0]
+				}
+				r.Fail("wedge", "silent-stall-muxer-origin", "the client neither ended nor is it pacing samples or waiting for a response after %d requests; one of its goroutines:\n%s", len(cw.net.log), first)
+			}
+		}
+		if !r.Failed() && started {
+			cw.closeClient()
+			for i := 0; i < 3; i++ {
+				syncWait()
+				cw.net.pump()
+			}
+			if !cw.waitSeen {
+				r.Fail("close", "not-honoured", "after Close, Wait yielded nothing")
+			} else if gs := clientGoroutines(); len(gs) > 0 {
+				r.Fail("close", "goroutine-leak", "after Close and Wait, %d client goroutine(s) remain; first:\n%s", len(gs), gs[0])
+			}
+		}
+	} else if llLog {
 		oracleC11LL(r, cw)
 	} else {
 		oracleC09(r, cw, w, cfg, lt, useMediaPrimary, endOfWrites)
